@@ -160,17 +160,17 @@ Verdict judge(const Case& c) {
     }
     // (v) orientation preserved for simple polygons
     if (simple && !res.empty()) {
-      // every result path must have the input's orientation unless it is a sliver whose area is within the reach of
-      // one-unit vertex rounding (area <= perimeter x 1 unit)
-      i128 ap = O::area2(path);
+      // orientation of the clipped polygon = sign of the total signed area of its result paths (RectClip may express
+      // a notch as a larger path plus a negatively oriented piece; the net winding is what clause (ii) checks).
+      // Results whose area is within the reach of one-unit vertex rounding (area <= perimeter) are not judged.
+      i128 ap = O::area2(path), ar = 0;
+      ld perim = 0;
       for (auto& q : res) {
-        i128 ar = O::area2(q);
-        ld perim = 0;
+        ar += O::area2(q);
         for (size_t k = 0; k < q.size(); ++k) perim += hypotl((ld)q[(k + 1) % q.size()].x - q[k].x, (ld)q[(k + 1) % q.size()].y - q[k].y);
-        ld absArea = fabsl((ld)ar) / 2;
-        if (absArea <= perim) { ST.count("sliver_results_not_judged_for_orientation"); continue; }
-        if ((ar > 0) != (ap > 0)) { v.fail("orientation not preserved" + at); return v; }
       }
+      if (fabsl((ld)ar) / 2 <= perim) ST.count("sliver_results_not_judged_for_orientation");
+      else if ((ar > 0) != (ap > 0)) { v.fail("orientation not preserved" + at); return v; }
     }
     ST.count(simple ? "simple_polygons" : "nonsimple_polygons");
     if (along) ST.count("with_edge_along_a_side");
